@@ -43,6 +43,7 @@ def required_cells(tier):
     req["radius:Fraction"] = 200
     req["history:rejected-builder-call-first"] = 300
     req["radius:int"] = 200
+    req["radius:nudged-to-hash-rounding-boundary"] = 300
     for n in (3, 4, 5, 24):
         req["n:%d" % n] = 5
     return req
@@ -107,7 +108,8 @@ def cases(rng, budget, widx, nworkers, tier):
             yield {"b": b, "c": c, "vs": [[x * s for x in u], [float(x) for x in v], [float(x) for x in w]], "reject_first": rng.random() < 0.3}
         elif b == "Sphere":
             yield {"b": b, "c": c, "r": rng.choice((0.25, 0.5, 1.0, 2.0, 3.0, 7.5)) if rng.random() < 0.5 else rng.uniform(0.26, 7.9),
-                   "n1": rng.choice((3, 4, 5, 6, 8, 10, 12)), "n2": rng.choice((2, 2, 3, 3, 4, 5)), "rt": rng.choice(("float", "float", "float", "Fraction", "int"))}
+                   "n1": rng.choice((3, 4, 5, 6, 8, 10, 12)), "n2": rng.choice((2, 2, 3, 3, 4, 5)), "rt": rng.choice(("float", "float", "float", "Fraction", "int")),
+                   "tune": rng.getrandbits(24) if rng.random() < 0.3 else None}
         else:
             d, lab = _rand_axis(rng)
             twin = None
@@ -122,7 +124,8 @@ def cases(rng, budget, widx, nworkers, tier):
             n = rng.choice((3, 3, 4, 5, 6, 7, 8, 10, 12, 17, 24)) if rng.random() < 0.8 else rng.randint(3, 24)
             yield {"b": b, "c": c, "r": rng.choice((0.25, 0.5, 1.0, 2.0, 3.0, 7.5)) if rng.random() < 0.5 else rng.uniform(0.26, 7.9),
                    "axis": d, "n": n, "alab": lab, "twin_axis": twin, "rt": rng.choice(("float", "float", "float", "Fraction", "int")),
-                   "reject_first": rng.choice((None, None, None, None, "Circle", "Cylinder", "Cone"))}
+                   "reject_first": rng.choice((None, None, None, None, "Circle", "Cylinder", "Cone")),
+                   "tune": rng.getrandbits(24) if rng.random() < 0.3 else None}
 
 
 def _rel(mu, what, got, want, key):
@@ -155,6 +158,39 @@ def _on_circle(mu, pts, c, nhat, r, n, key, what):
     gaps = [(angs[(i + 1) % n] - angs[i]) % (2 * math.pi) for i in range(n)]
     if n > 1 and max(abs(g - 2 * math.pi / n) for g in gaps) > 1e-7:
         mu.fail(key + ":%s-unequal-angular-steps" % what, "angular gaps of the %s range %r..%r, expected %r" % (what, min(gaps), max(gaps), 2 * math.pi / n))
+
+
+def _tune_radius(G, case, r, mu):
+    """hostile pose: the radius is nudged (by < 1e-9) so that one coordinate of one vertex of the shape lands within a
+    few ulps of a boundary of the 10-decimal rounding used by Point.__hash__ - a shape whose shared vertices are computed
+    twice in slightly different ways then falls apart there.  The nudged radius is an ordinary radius of the quantified
+    range; the case is judged like any other."""
+    b, c = case["b"], case["c"]
+    tr = random.Random(case["tune"])
+    try:
+        if b == "Sphere":
+            o = G.Sphere(G.Point(*c), r, case["n1"], case["n2"])
+        elif b == "Circle":
+            o = G.Circle(G.Point(*c), G.Vector(*case["axis"]), r, case["n"])
+        else:
+            o = getattr(G, b)(G.Point(*c), r, G.Vector(*case["axis"]), case["n"])
+        vs = sorted(tuple(float(x) for x in p) for p in (o.points if b == "Circle" else o.point_set))
+    except Exception:
+        return r
+    for _ in range(8):
+        v = tr.choice(vs)
+        i = tr.randrange(3)
+        a = (v[i] - c[i]) / r
+        if abs(a) < 1e-3:
+            continue
+        bnd = (math.floor(v[i] * 1e10) + 0.5) / 1e10
+        rr = (bnd - c[i]) / a
+        for _k in range(tr.randrange(0, 3)):
+            rr = math.nextafter(rr, tr.choice((math.inf, -math.inf)))
+        if 0.25 < rr < 8 and abs(rr - r) < 1e-8:
+            mu.cell("radius:nudged-to-hash-rounding-boundary")
+            return rr
+    return r
 
 
 def judge(case):
@@ -221,6 +257,8 @@ def judge(case):
         r = max(1, int(round(r)))
         mu.cell("radius:int")
     fc = tuple(c)
+    if case.get("tune") is not None and rt not in ("Fraction", "int"):
+        r = _tune_radius(G, case, float(r), mu)
     rarg = r
     r = float(r)
     if b == "Sphere":
